@@ -14,6 +14,7 @@
 #include <fcppt/enum/to_string.hpp>
 #include <fcppt/enum/to_string_case.hpp>
 #include <fcppt/enum/to_string_impl_fwd.hpp>
+#include <fcppt/io/narrow_string_locale.hpp>
 #include <fcppt/io/read.hpp>
 #include <fcppt/io/read_chars.hpp>
 #include <fcppt/io/write.hpp>
@@ -618,6 +619,110 @@ struct World
     ctx.ev("cvt len=" + std::to_string(len) + " bytes=" + std::to_string(utf8.size()) + " window=" + std::to_string(window) + (nerr ? " nerr" : "") + (torn ? " torn" : "") + (threw ? " wthrew" : ""));
   }
 
+  // ---- enum input must reject everything that is not exactly a name (never another enumerator)
+  template <typename Ch>
+  void badname_impl(sim::Op const &op)
+  {
+    using string = std::basic_string<Ch>;
+    sim::Rng r(op.getu("vs"));
+    color const c = static_cast<color>(r.below(5));
+    std::string const name{fcppt::enum_::to_string(c)};
+    unsigned variant = static_cast<unsigned>(op.getu("v") % 5);
+    if (variant == 3 && sizeof(Ch) == 1)
+      variant = 1;
+    string text;
+    bool valid = false;
+    switch (variant)
+    {
+    case 0: // control: the name itself
+      text.assign(name.begin(), name.end());
+      valid = true;
+      break;
+    case 1: // a strict, non-empty prefix (names are prefix-free), or one character for 1-letter names
+      text.assign(name.begin(), name.begin() + static_cast<std::ptrdiff_t>(name.size() > 1 ? 1 + r.below(name.size() - 1) : 1));
+      if (text.size() == name.size())
+        text.push_back(Ch('q'));
+      break;
+    case 2: // the name followed by garbage without a separator
+      text.assign(name.begin(), name.end());
+      text.push_back(Ch('q'));
+      break;
+    case 3: // wide only: characters whose LOW byte spells the name (U+01xx ...)
+      for (char ch : name)
+        text.push_back(static_cast<Ch>(static_cast<unsigned char>(ch) + 0x100U * (1U + static_cast<unsigned>(r.below(3)))));
+      break;
+    default: // one letter changed
+      text.assign(name.begin(), name.end());
+      text[r.below(text.size())] = Ch('Q');
+      break;
+    }
+    text.push_back(Ch(' '));
+    sim::StreamBuf<Ch> rb(text, op.getu("rchunk") % 9);
+    std::basic_istream<Ch> is(&rb);
+    is.imbue(sim::sim_locale());
+    color got = c == color::x ? color::red : color::x; // something else than c
+    color const before = got;
+    {
+      sim::fault::Sut s;
+      is >> got;
+    }
+    if (rb.threw())
+      SIM_CHECK(is.fail(), "value-after-read-error", "enum input produced a value although the stream failed");
+    else if (valid)
+      SIM_CHECK(!is.fail() && got == c, "roundtrip", "enum name '" + name + "' was not read back");
+    else
+    {
+      SIM_CHECK(is.fail(), "malformed-name-accepted", "enum input accepted a text that is not a name (variant " + std::to_string(variant) + " of '" + name + "') and produced enumerator " + std::to_string(static_cast<int>(got)));
+      (void)before;
+    }
+    ctx.ev(std::string("badname<") + (sizeof(Ch) == 1 ? "char" : "wchar_t") + "> v=" + std::to_string(variant) + (is.fail() ? " rejected" : " accepted"));
+  }
+
+  // ---- io::narrow_string_locale: the string of ctype::narrow(c, 0) iff none of them is 0
+  void op_ionarrow(sim::Op const &op)
+  {
+    sim::Rng r(op.getu("vs"));
+    std::size_t const len = op.getu("n") % 12;
+    std::wstring w;
+    for (std::size_t k = 0; k < len; ++k)
+    {
+      unsigned long c = 0;
+      switch (r.below(8))
+      {
+      case 0: c = 0x80 + r.below(0x80); break;               // Latin-1 range
+      case 1: c = 0x100 * (1 + r.below(0x40)) + 0x20 + r.below(0x5F); break; // low byte is printable ASCII
+      case 2: c = 0x4E00 + r.below(0x100); break;
+      default: c = 0x20 + r.below(0x5F); break;              // ASCII
+      }
+      w.push_back(static_cast<wchar_t>(c));
+    }
+    static std::locale const real_locale("C.utf8");
+    std::locale const &loc = op.get("classic") != 0 ? std::locale::classic() : real_locale;
+    auto const &ct = std::use_facet<std::ctype<wchar_t>>(loc);
+    std::string expect;
+    bool representable = true;
+    for (wchar_t c : w)
+    {
+      char const d = ct.narrow(c, '\0');
+      if (d == '\0')
+        representable = false;
+      expect.push_back(d);
+    }
+    fcppt::optional::object<std::string> res;
+    {
+      sim::fault::Sut s;
+      res = fcppt::io::narrow_string_locale(std::wstring_view{w}, loc);
+    }
+    if (representable)
+      SIM_CHECK(res.has_value() && res.get_unsafe() == expect, "roundtrip", "narrow_string of a representable string");
+    else
+    {
+      SIM_CHECK(!res.has_value(), "silent-truncation", "io::narrow_string_locale returned '" + (res.has_value() ? res.get_unsafe() : std::string()) + "' for a string with a character that has no narrow representation");
+      ctx.probe("ionarrow_unrepresentable");
+    }
+    ctx.ev("ionarrow len=" + std::to_string(len) + (res.has_value() ? " value" : " nothing"));
+  }
+
   // ---- riders without a seam of their own (only in fault-free runs)
   void op_pure(sim::Op const &op)
   {
@@ -675,6 +780,15 @@ struct World
       }
       else if (op.name == "cvt")
         op_cvt(op);
+      else if (op.name == "badname")
+      {
+        if (op.getu("w") % 2 == 0)
+          badname_impl<char>(op);
+        else
+          badname_impl<wchar_t>(op);
+      }
+      else if (op.name == "ionarrow")
+        op_ionarrow(op);
       else if (op.name == "pure")
         op_pure(op);
       else
@@ -776,6 +890,11 @@ void generate(sim::Rng &rng, sim::Plan &p, bool)
     else
       op = sim::Op("pure").set("vs", vs);
     p.ops.push_back(op);
+    // stream input of malformed names and io::narrow_string ride along with every plan
+    if (rng.chance(1, 3))
+      p.ops.push_back(sim::Op("badname").set("vs", static_cast<long>(rng.below(1000000000))).set("w", static_cast<long>(rng.below(2))).set("v", static_cast<long>(rng.below(5))).set("rchunk", static_cast<long>(rng.below(9))));
+    if (rng.chance(1, 4))
+      p.ops.push_back(sim::Op("ionarrow").set("vs", static_cast<long>(rng.below(1000000000))).set("n", static_cast<long>(rng.below(12))).set("classic", static_cast<long>(rng.below(2))));
   }
 }
 
